@@ -33,8 +33,19 @@ impl ChildResult {
 }
 
 pub fn run(bin: &str, args: &[String], timeout: Duration) -> ChildResult {
+    run_in(bin, args, None, &[], timeout)
+}
+
+pub fn run_in(bin: &str, args: &[String], cwd: Option<&str>, envs: &[(&str, String)], timeout: Duration) -> ChildResult {
     let start = Instant::now();
-    let mut child = match Command::new(bin)
+    let mut cmd = Command::new(bin);
+    if let Some(d) = cwd {
+        cmd.current_dir(d);
+    }
+    for (k, v) in envs {
+        cmd.env(k, v);
+    }
+    let mut child = match cmd
         .args(args)
         .stdin(Stdio::null())
         .stdout(Stdio::piped())
@@ -62,7 +73,7 @@ pub fn run(bin: &str, args: &[String], timeout: Duration) -> ChildResult {
         let mut s = Vec::new();
         let _ = err.read_to_end(&mut s);
         let s = String::from_utf8_lossy(&s).to_string();
-        let tail: Vec<&str> = s.lines().rev().take(6).collect();
+        let tail: Vec<&str> = s.lines().rev().take(40).collect();
         tail.into_iter().rev().collect::<Vec<_>>().join("\n")
     });
     let exit;
